@@ -750,3 +750,68 @@ Theorem ostall_scenario_code :
   ostall_scenario false 1 0 = Ok (0, 1) /\ ostall_scenario false 3 0 = Ok (2, 3) /\
   ostall_scenario false 3 2 = Ok (0, 1) /\ ostall_scenario true 1 0 = Ok (1, 1).
 Proof. repeat split; vm_compute; reflexivity. Qed.
+
+(* ================================================================ stale handles *)
+
+Definition pinv (limit : N) (st : N * list permit) : Prop :=
+  fst st = N.of_nat (n_live (snd st)) /\ fst st <= limit.
+
+Lemma n_live_app hs p : n_live (hs ++ [p]) = (n_live hs + bnat (handle_live p))%nat.
+Proof.
+  unfold n_live. rewrite filter_app, app_length. cbn [filter]. destruct (handle_live p); cbn [length bnat]; lia.
+Qed.
+
+Lemma pop_step_inv limit st o : pinv limit st ->
+  exists c hs ok, pop_step limit st o = Ok (c, hs, ok) /\ pinv limit (c, hs) /\
+    (o = PopGet -> (ok = true <-> fst st < limit) /\ (ok = true -> c = fst st + 1) /\ (ok = false -> c = fst st)).
+Proof.
+  destruct st as [sem hs]. intros [Hc Hle]. cbn [fst snd] in *. destruct o as [|i]; cbn [pop_step].
+  - unfold get_permit. destruct (try_acquire limit sem) as [c|] eqn:A.
+    + apply try_acquire_some in A. destruct A as [Hlt ->].
+      exists (sem + 1), (hs ++ [ReleasePermit false]), true. split; [reflexivity|]. split.
+      * unfold pinv; cbn [fst snd]. rewrite n_live_app. cbn [handle_live bnat]. lia.
+      * intros _. repeat split; auto; try lia; discriminate.
+    + apply try_acquire_none in A.
+      exists sem, (hs ++ [NoPermit]), false. split; [reflexivity|]. split.
+      * unfold pinv; cbn [fst snd]. rewrite n_live_app. cbn [handle_live bnat]. lia.
+      * intros _. repeat split; auto; try lia; try discriminate; intros; try lia; discriminate.
+  - destruct (nth_error hs i) as [p|] eqn:E.
+    + pose proof (count_upd handle_live hs i p) as U.
+      destruct p as [|[|]]; cbn [permit_release].
+      * exists sem, (upd hs i NoPermit), true. split; [reflexivity|]. split; [|discriminate].
+        specialize (U NoPermit E). cbn [handle_live bnat] in U. unfold pinv, n_live in *; cbn [fst snd]. lia.
+      * exists sem, (upd hs i (ReleasePermit true)), true. split; [reflexivity|]. split; [|discriminate].
+        specialize (U (ReleasePermit true) E). cbn [handle_live bnat] in U. unfold pinv, n_live in *; cbn [fst snd]. lia.
+      * specialize (U (ReleasePermit true) E). cbn [handle_live bnat] in U. unfold n_live in *.
+        unfold sem_release. destruct (sem =? 0) eqn:Z; [lia|].
+        exists (sem - 1), (upd hs i (ReleasePermit true)), true. split; [reflexivity|]. split; [|discriminate].
+        unfold pinv, n_live; cbn [fst snd]. lia.
+    + exists sem, hs, true. split; [reflexivity|]. split; [split; assumption | discriminate].
+Qed.
+
+(* Any sequence of Get and Release calls, Release through ANY handle ever handed out, any number of times: the semaphore
+   never panics, the slots in use are exactly the handles not yet released (so never more than the limit, and a repeated
+   Release through an old handle frees nothing), and a Get fails exactly when the limit is reached. *)
+Theorem stale_handles_harmless limit : forall ops st, pinv limit st ->
+  exists l, pops_run limit ops st = Ok l /\ Forall (fun x => snd x <= limit) l.
+Proof.
+  induction ops as [|o r IH]; intros st H; cbn [pops_run]; [eexists; split; [reflexivity | constructor]|].
+  destruct (pop_step_inv limit st o H) as (c & hs & ok & E & I & _). rewrite E.
+  destruct (IH (c, hs) I) as (l & El & Fl). rewrite El. eexists; split; [reflexivity|].
+  constructor; [cbn [snd]; destruct I as [_ I2]; exact I2 | exact Fl].
+Qed.
+
+Theorem get_after_stale_release limit st o : pinv limit st ->
+  exists c hs ok, pop_step limit st o = Ok (c, hs, ok) /\ c = N.of_nat (n_live hs) /\ c <= limit /\
+    (o = PopGet -> (ok = true <-> fst st < limit)).
+Proof.
+  intros H. destruct (pop_step_inv limit st o H) as (c & hs & ok & E & [I1 I2] & G).
+  exists c, hs, ok. repeat split; auto; intros; now apply G.
+Qed.
+
+(* the controller-level witness of a recycled permit object: A released, B acquired, A released again, limit 1:
+   in the model B still holds the only slot and the next Get fails *)
+Theorem stale_release_example :
+  pops_run 1 [PopGet; PopRelease 0; PopGet; PopRelease 0; PopGet; PopRelease 1; PopGet] (0, []) =
+  Ok [(true, 1); (true, 0); (true, 1); (true, 1); (false, 1); (true, 0); (true, 1)].
+Proof. vm_compute. reflexivity. Qed.
